@@ -33,6 +33,8 @@ type Strategy struct {
 	EarlyAccuse  bool // send the (false) accusation already in the dealing phase
 	EarlyApology bool // send an unsolicited apology with a made-up value in the dealing phase
 	Noise        bool // messages for a wrong eon, naming outsiders, naming itself
+	// SilentEons: DKG runs in which this keyper sends no DKG message at all
+	SilentEons map[uint64]bool
 }
 
 func (s Strategy) String() string {
@@ -78,6 +80,9 @@ func (s *Sim) NewByz(idx int, st Strategy) *Byz {
 }
 
 func (b *Byz) send(msg *shmsg.Message, label string) {
+	if b.pure != nil && b.S.SilentEons[b.eon] && label != "checkin" && label != "vote" {
+		return
+	}
 	b.nonce++
 	tx := b.sim.U.SignTx(b.Idx, b.nonce, smchain.ChainID, msg, label)
 	chk, d := b.sim.Chain.Submit(tx.Bytes)
